@@ -7,6 +7,7 @@ import (
 	"reflect"
 	"regexp"
 	"sort"
+	"strings"
 	"sync"
 	"time"
 	"verif/harness/xport"
@@ -274,7 +275,7 @@ func runC07(c *Ctx) {
 			r.Inconclusive("bad replay: %v", err)
 			return
 		}
-		if rec.Source == "channel" {
+		if rec.Source == "channel" || rec.Source == "channel-continuation" {
 			// channel-level case: re-run every cut of this encoding
 			c07ChannelLeg(c, []c07Enc{{cs: pkgCase{Type: rec.Type, Variant: rec.Variant, Opt: rec.Opt, Ref: q}, Source: "ref", X: X}})
 			return
@@ -367,10 +368,17 @@ func c07ChannelLeg(c *Ctx, encs []c07Enc) {
 		if e.cs.Type == "DONE" || e.cs.Type == "DONEPROC" || e.cs.Type == "DONEINPROC" {
 			// a DONE with status 0 would end message 2 early in the comparison; any DONE is fine as X
 		}
-		if perType[e.cs.Type] >= limit {
+		// packages with a list of members (the reader appends to a list
+		// while it parses): the many-member variants are wanted, the quota
+		// is per (type, member count class)
+		cl := e.cs.Type
+		if strings.Contains(e.cs.Opt, "items=") && !strings.Contains(e.cs.Opt, "items=0") && !strings.Contains(e.cs.Opt, "items=1,") {
+			cl += "/several-members"
+		}
+		if perType[cl] >= limit {
 			continue
 		}
-		perType[e.cs.Type]++
+		perType[cl]++
 		for k := 1; k < len(e.X); k++ {
 			if len(e.X) > 64 && k > 16 && k < len(e.X)-16 && k%7 != 0 {
 				continue
@@ -379,21 +387,64 @@ func c07ChannelLeg(c *Ctx, encs []c07Enc) {
 		}
 	}
 	done0 := []byte{0xfd, 0, 0, 0, 0, 0, 0, 0, 0}
-	deliver := func(msgs ...[]byte) (delivered, bool) {
+	// deliverSt: each part is one packet with the given status. What the
+	// consumer's hooks were told during the last message counts as
+	// delivered (ENVCHANGE and informational EED are not handed out as
+	// packages).
+	var deliverSend func(parts [][]byte, status []byte, sendAfter int) (delivered, bool)
+	deliverSt := func(parts [][]byte, status []byte) (delivered, bool) { return deliverSend(parts, status, -1) }
+	deliverSend = func(parts [][]byte, status []byte, sendAfter int) (delivered, bool) {
 		k, err := newKit(4096, 0)
 		if err != nil {
 			return delivered{}, false
 		}
 		defer k.teardown()
+		var hmu sync.Mutex
+		var hooks []string
+		_ = k.ch.RegisterEnvChangeHooks(func(typ tds.EnvChangeType, o, n string) {
+			hmu.Lock()
+			hooks = append(hooks, fmt.Sprintf("hook:env(%d,%q,%q)", typ, o, n))
+			hmu.Unlock()
+		})
+		_ = k.ch.RegisterEEDHooks(func(e tds.EEDPackage) {
+			hmu.Lock()
+			hooks = append(hooks, fmt.Sprintf("hook:eed(%d)", e.MsgNumber))
+			hmu.Unlock()
+		})
 		var last delivered
-		for _, m := range msgs {
-			k.tr.Feed(xport.Packet(byte(tds.TDS_BUF_RESPONSE), xport.EOM, 0, m))
+		for i, m := range parts {
+			if i > 0 && status[i-1]&xport.EOM != 0 {
+				hmu.Lock()
+				hooks = nil // a new message starts
+				hmu.Unlock()
+			}
+			k.tr.Feed(xport.Packet(byte(tds.TDS_BUF_RESPONSE), status[i], 0, m))
 			if !awaitIdle(k.tr, 30*time.Second) {
 				return delivered{}, false
 			}
-			last = drainChannel(k.ch, k.ctx)
+			if status[i]&xport.EOM != 0 {
+				last = drainChannel(k.ch, k.ctx)
+			}
+			if i == sendAfter {
+				// the client's own send call ends here (its request went
+				// out while the answer was already arriving)
+				if err := k.ch.SendPackage(k.ctx, &tds.LanguagePackage{Cmd: "select 1"}); err != nil {
+					return delivered{}, false
+				}
+			}
 		}
+		hmu.Lock()
+		last.Dumps = append(last.Dumps, hooks...)
+		last.Types = append(last.Types, hooks...)
+		hmu.Unlock()
 		return last, true
+	}
+	deliver := func(msgs ...[]byte) (delivered, bool) {
+		st := make([]byte, len(msgs))
+		for i := range st {
+			st[i] = xport.EOM
+		}
+		return deliverSt(msgs, st)
 	}
 	refs := map[string]delivered{}
 	var mu sync.Mutex
@@ -426,6 +477,36 @@ func c07ChannelLeg(c *Ctx, encs []c07Enc) {
 		if len(got.Errs) > 0 || !sameStrings(got.Dumps, ref.Dumps) {
 			rec := c07CaseRec{Type: j.e.cs.Type, Variant: j.e.cs.Variant, Opt: j.e.cs.Opt, Source: "channel", K: j.k, Hex: hex.EncodeToString(j.e.X), Ref: j.e.cs.Ref}
 			r.Violate("channel/"+j.e.cs.Type+"/complete-message-after-cut-off-message-differs", fmt.Sprintf("message 1 = first %d of %d bytes of a %s with EOM, message 2 = the complete package + final DONE: delivered %v errors %v; without message 1: %v", j.k, len(j.e.X), j.e.cs.Type, got.Types, got.Errs, ref.Types), rec)
+			return
+		}
+		// the same cut as a packet boundary inside one message: the parse
+		// attempt on packet 1 ends with not-enough-bytes and is repeated
+		// when packet 2 has arrived
+		r.Eval(1)
+		got2, good2 := deliverSt([][]byte{full[:j.k], full[j.k:]}, []byte{0, xport.EOM})
+		if !good2 {
+			r.Inconclusive("channel leg: reader did not become idle (%s k=%d, continuation)", j.e.cs.Type, j.k)
+			return
+		}
+		r.Count("channel_leg_continuation_cases", 1)
+		if len(got2.Errs) == 0 && sameStrings(got2.Dumps, ref.Dumps) && j.k%3 == 0 {
+			// ... and with a send call of the client ending between the two packets
+			r.Eval(1)
+			got3, good3 := deliverSend([][]byte{full[:j.k], full[j.k:]}, []byte{0, xport.EOM}, 0)
+			if !good3 {
+				r.Inconclusive("channel leg: reader did not become idle or send failed (%s k=%d, send between)", j.e.cs.Type, j.k)
+				return
+			}
+			r.Count("channel_leg_send_between_cases", 1)
+			if len(got3.Errs) > 0 || !sameStrings(got3.Dumps, ref.Dumps) {
+				rec := c07CaseRec{Type: j.e.cs.Type, Variant: j.e.cs.Variant, Opt: j.e.cs.Opt, Source: "channel-continuation", K: j.k, Hex: hex.EncodeToString(j.e.X), Ref: j.e.cs.Ref}
+				r.Violate("channel/"+j.e.cs.Type+"/retried-after-truncated-attempt-differs/send-between", fmt.Sprintf("a %s of %d bytes + final DONE sent as packet 1 = first %d bytes (no EOM), then a SendPackage call of the client returns, then packet 2 = the rest: delivered %v errors %v; sent as one packet: %v", j.e.cs.Type, len(j.e.X), j.k, got3.Types, got3.Errs, ref.Types), rec)
+				return
+			}
+		}
+		if len(got2.Errs) > 0 || !sameStrings(got2.Dumps, ref.Dumps) {
+			rec := c07CaseRec{Type: j.e.cs.Type, Variant: j.e.cs.Variant, Opt: j.e.cs.Opt, Source: "channel-continuation", K: j.k, Hex: hex.EncodeToString(j.e.X), Ref: j.e.cs.Ref}
+			r.Violate("channel/"+j.e.cs.Type+"/retried-after-truncated-attempt-differs", fmt.Sprintf("a %s of %d bytes + final DONE sent as packet 1 = first %d bytes (no EOM), packet 2 = the rest: delivered (packages, then hook calls) %v errors %v; sent as one packet: %v", j.e.cs.Type, len(j.e.X), j.k, got2.Types, got2.Errs, ref.Types), rec)
 		}
 	})
 }
